@@ -591,7 +591,17 @@ func VerifC07_FailedStartDoesNotStallQueue() {
 	rt.SchedYieldOnly(true)
 	online := c07Reset()
 	failure := rt.Choice("failure", 2)
+	// the queue may come to the task while the start routine is still running
+	whileStarting := rt.Bool("task-picked-up-while-the-module-is-starting")
+	release := make(chan struct{})
+	var submit func()
 	broken := initNewModule("broken", nil, func() error {
+		if whileStarting {
+			// (the start routine itself creates and submits the task, as
+			// start routines commonly do)
+			submit()
+			<-release
+		}
 		if failure == 1 {
 			panic("start routine panicked")
 		}
@@ -602,7 +612,7 @@ func VerifC07_FailedStartDoesNotStallQueue() {
 	// a task of the module is created and queued before the start attempt (e.g.
 	// by its prep routine) or after it (by code that does not know it failed)
 	kind := rt.Choice("kind", 3)
-	submit := func() {
+	submit = func() {
 		tb := broken.NewTask("tb", func(context.Context, *Task) error { brokenRan = true; return nil }).MaxDelay(0)
 		switch kind {
 		case 0:
@@ -614,12 +624,24 @@ func VerifC07_FailedStartDoesNotStallQueue() {
 		}
 	}
 	before := rt.Bool("task-created-before-the-start-attempt")
-	if before {
+	if whileStarting {
+		before = true
+	} else if before {
 		submit()
 	}
 	// the start attempt fails
 	reports := make(chan *report, 1)
 	broken.start(reports)
+	if whileStarting {
+		go func() {
+			for {
+				taskTimeslot <- struct{}{}
+			}
+		}()
+		go taskQueueHandler()
+		rt.Quiesce(time.Second) // the handler has taken the task and waits for the start
+		close(release)
+	}
 	rep := <-reports
 	rt.Assert(rep.err != nil, "failedstart/start-reports-the-failure")
 	rt.Assert(broken.Status() == StatusOffline, "failedstart/module-offline")
@@ -628,12 +650,14 @@ func VerifC07_FailedStartDoesNotStallQueue() {
 	}
 	to := online.NewTask("to", func(context.Context, *Task) error { onlineRan = true; return nil }).MaxDelay(0)
 	to.Queue()
-	go func() {
-		for {
-			taskTimeslot <- struct{}{}
-		}
-	}()
-	go taskQueueHandler()
+	if !whileStarting {
+		go func() {
+			for {
+				taskTimeslot <- struct{}{}
+			}
+		}()
+		go taskQueueHandler()
+	}
 	rt.Quiesce(10 * time.Minute)
 	rt.Assert(!brokenRan, "failedstart/task-of-the-failed-module-not-executed")
 	rt.Assert(onlineRan, "failedstart/task-of-an-online-module-behind-it-still-runs")
